@@ -46,6 +46,9 @@ pub struct Scenario {
     pub log_st: bool,
     /// Hard cap on loop iterations (receive calls) so a livelocked tracer ends the run.
     pub max_recv_calls: u64,
+    /// One responsive path that is replaced by another responsive path of a different length at
+    /// `topo.change_round` (no loss, generous timings): the reported length must follow.
+    pub regrow: bool,
 }
 
 impl Default for Scenario {
@@ -86,6 +89,7 @@ impl Default for Scenario {
             log_wire: false,
             log_st: true,
             max_recv_calls: 2_000_000,
+            regrow: false,
         }
     }
 }
